@@ -261,7 +261,8 @@ def run(ctx):
                          "limit=rest (fast path boundary)", "split-within:subs", "split-within:graft", "split-within:prune",
                          "split-within:ihave", "split-within:iwant", "split-within:idw", "split-within:pub",
                          "send:whole (size < limit)", "send:split", "send:drop reported", "send:exact fit queued",
-                         "send:limit=size", "send:slow+idontwant", "send:drop+gossip"]}
+                         "send:limit=size", "send:slow+idontwant", "send:drop+gossip",
+                         "send:piggybacked content takes the RPC over the limit"]}
     nontrivial, ids, panicked, samples_pool = set(), set(), [], {"tlc": [], "rand": []}
     count = {"tlc": 0, "rand": 0, "send": 0}
     touched = [0]
@@ -310,6 +311,8 @@ def run(ctx):
             ob["send:limit=size"] += 1
         if l["rest"] >= lim and l["inp"].get("idw"):
             ob["send:slow+idontwant"] += 1
+        if l.get("piggy") and l["outsize"] < lim <= l["insize"]:
+            ob["send:piggybacked content takes the RPC over the limit"] += 1
 
     nrand = 150 if not ctx.thorough else 1500
     for test, env in (("TestC11Shapes", {"VERIF_IN": scn_file}), ("TestC11Random", {"VERIF_C11_RANDOM": nrand}),
@@ -387,7 +390,8 @@ def run(ctx):
         payload["tlc_verdict"] = v
         payload["how_to_rebuild"] = ("concretise 'abs' of shape sid (work/C11-*/shapes.ndjson) as harness/drivers/c11 does, limit as given"
                                      if ln["src"] == "tlc"
-                                     else "TestC11Random: VERIF_SEED and case number are in the id r<seed>.<case>-<limit>")
+                                     else "TestC11Random / TestC11Send: VERIF_SEED and case number are in the id (s)r<seed>.<case>-<limit>")
+        payload["level"] = "RPC.split (pubsub.VerifSplit)" if ln["e"] == "case" else "GossipSubRouter.sendRPC (PubSub.VerifSendRPC)"
         shown = {k: x for k, x in v.items() if k != "id" and x not in ([], False, True)}
         if ln["e"] == "case":
             what = "%d fragments of sizes %s" % (len(ln["frags"]), ln["sizes"][:12])
@@ -442,4 +446,5 @@ def run(ctx):
         "'empty RPC' = no message, subscription, control entry or extension field (an empty Control wrapper alone is empty); inputs never contain a non-nil but empty Control",
         "the input space beyond the enumerated shapes (elements of 128 bytes and more, thousands of ids) is sampled by a seeded generator, not enumerated",
         "sendRPC is driven inside the event loop of a real gossipsub node towards a peer that exists as an outbound queue only "
-        "(PubSub.VerifSendRPC, build tag verif); the writer goroutine and the wire are not part of this check; piggybacked retries are not exercised"])
+        "(PubSub.VerifSendRPC, build tag verif); the writer goroutine and the wire are not part of this check; in every other sendRPC case the PRUNEs and IHAVEs reach sendRPC "
+        "by piggybacking (pending control retry / pending gossip installed for the peer); GRAFT retries (need mesh membership) are not piggybacked"])
